@@ -87,11 +87,11 @@ TRUSTED_BASE = ['modelled (not verified) code: pybtex/bibtex/utils.py lines 96-6
                 'regular expressions BIBTEX_SPACE_RE, BRACE_RE, purify_special_char_re and the separators are hand-written matchers, compared with the live re objects through the functions that use them on the exhaustive stream']
 ASSUMPTIONS = ['letter/digit classes and case mapping are modelled on ASCII; non-ASCII letters are outside the claimed domain (DESIGN.md 2.2)']
 PARTIAL = [
-    'prefix_shape (k = exact depth) and prefix_closes are proved for balanced strings; on a string that ends inside an unclosed special character with open inner braces the code closes one brace only (finding C12-P1, prefix_closes_refuted); for all strings: prefix_is_prefix with k <= depth',
-    'split_never_in_braces is proved for balanced strings; refuted on unbalanced ones (finding C12-S1, split_never_in_braces_refuted); split_reassemble holds for all strings',
-    'change_case_length / change_case_idem are proved for balanced strings (for a string ending inside an unclosed special character the scanner emits a closing brace that is not in the input: change_case_unbalanced_example, change_case_upto_case_all)',
-    'bibtex_first_letter, bibtex_abbreviate, bibtex_width, _find_closing_brace and the BST builtins are tied by the correspondence only (the property text states no law about them)',
-    'the separator regexes are hand-written matchers; agreement with the live re objects is tested through split_tex_string, not swept separately',
+    'prefix_shape (k = exact depth) is proved for every string that does not end inside a never-closed special character, prefix_closes for balanced strings; otherwise the code may close one brace only (finding C12-P1, prefix_closes_refuted); for all strings: prefix_is_prefix with k <= depth',
+    'split_never_in_braces is proved for balanced strings and for all strings whose groups are all closed; refuted otherwise (finding C12-S1, split_never_in_braces_refuted); split_reassemble holds for all strings',
+    'change_case_length / change_case_idem are proved for every string that does not end inside a never-closed special character (for those the scanner emits a closing brace that is not in the input: change_case_unbalanced_example, change_case_upto_case_all)',
+    'bibtex_abbreviate, _find_closing_brace and the BST builtins are tied by the correspondence only (the property text states no law about them); bibtex_width / bibtex_first_letter: additivity / shape theorems only',
+    'the separator regexes are hand-written matchers; agreement with the live re objects is tested (pattern sweep + through split_tex_string), not proved',
 ]
 
 def describe(fn, a):
